@@ -375,13 +375,15 @@ def run(ctx):
     lr_norm = {s: json.dumps({k: (v.get("exception", {}).get("exc") or v) for k, v in (x or {}).items()}, sort_keys=True)
                for s, x in lr.items()}
     same = len(set(lr_norm.values())) == 1
-    ctx.obligation("hash seeds: lr1.Grammar(...).parser() on three small grammars gives one result under all %d seeds" % len(seeds), same)
+    n_v0 = len(ctx.violations)
     if not same:
         ctx.violation("hashseed-dependent-output:Grammar.parser",
                       "lr1.Grammar('S', [S -> A, S -> a, A -> S]).parser() depends on PYTHONHASHSEED: " +
                       "; ".join("%s: %s" % (s, lr_norm[s][:120]) for s in seeds[:6]),
                       dict(kind="call", call="lr1.Grammar('S', [S -> A, S -> a, A -> S]).parser()", results={str(s): lr[s] for s in seeds}),
                       found_input=True)
+    ctx.obligation("hash seeds: lr1.Grammar(...).parser() on three small grammars gives one result under all %d seeds "
+                   "(apart from a listed known finding)" % len(seeds), len(ctx.violations) == n_v0)
     if thorough:
         t0, t1 = res[("tables", 0)].get("expression_parser_sha"), res[("tables", 1)].get("expression_parser_sha")
         ctx.obligation("hash seeds: generated expression parser tables identical under two seeds", t0 == t1 and t0 is not None)
